@@ -6,10 +6,10 @@ if ! git diff --quiet || ! git diff --cached --quiet; then
 fi
 git merge "$1" -m "merge $1" > /tmp/merge_out.txt 2>&1; tail -2 /tmp/merge_out.txt
 for f in lean/PanqecVerif.lean lean/Driver/Main.lean; do
-  if git diff --name-only --diff-filter=U | grep -q "^$f$"; then git checkout --ours "$f"; fi
+  if git diff --name-only --diff-filter=U | grep -q "^$f$"; then git checkout --ours "$f"; git add "$f"; fi
 done
 if git diff --name-only --diff-filter=U | grep -q "^known_findings.json$"; then
-  git checkout --ours known_findings.json
+  git checkout --ours known_findings.json; git add known_findings.json
 fi
 git show "$1":known_findings.json > /tmp/kf_theirs.json 2>/dev/null && python3 - <<'PY'
 import json
